@@ -45,6 +45,7 @@ func (c10) Nontrivial(c *sim.Case, st *sim.Stats) bool {
 
 func (c10) Gen(r *sim.Rand, c *sim.Case, tier string) {
 	g := world.NewGen(r)
+	g.Extra = true
 	g.Alpha = []int{0}
 	g.Fam = world.FImage | world.FBody
 	for _, f := range []int{world.FHF, world.FList, world.FNote, world.FTable, world.FPage} {
